@@ -51,3 +51,44 @@ example : Gen.C01.intersectExpr 4 0 1 8 = true ∧ Gen.C01.intersectExpr 8 0 1 8
 example : Gen.C01.mayAlias 0 5 0 0 = true ∧ Gen.C01.mayAlias 3 5 0 0 = false ∧ Gen.C01.mayAlias 3 3 7 7 = false := by decide
 
 end MirVerif
+
+namespace MirVerif
+open MirVerif.Gen
+
+/-! ## Immediate-range predicates of the x86-64 back end
+
+An instruction pattern with an `imm8`/`imm16`/`imm32` field may be chosen only for a constant the field
+can carry: the CPU sign-extends (zero-extends for the `u` forms) the field back to 64 bits.  Only this
+direction is a property of C01; a predicate that accepts fewer values merely loses an encoding. -/
+
+/-- **a constant accepted for a signed N-bit immediate field is reproduced by sign extension** -/
+theorem imm_signed_sound (v : BitVec 64) :
+    (C01.int8_p v.toInt = true → (v.truncate 8).signExtend 64 = v) ∧
+    (C01.int16_p v.toInt = true → (v.truncate 16).signExtend 64 = v) ∧
+    (C01.int32_p v.toInt = true → (v.truncate 32).signExtend 64 = v) := by
+  refine ⟨?_, ?_, ?_⟩ <;> intro h <;>
+    (simp only [C01.int8_p, C01.int16_p, C01.int32_p, Bool.and_eq_true, decide_eq_true_eq] at h
+     apply BitVec.eq_of_toInt_eq
+     rw [BitVec.toInt_signExtend_of_le (by decide)]
+     simp only [BitVec.truncate_eq_setWidth, BitVec.toInt_setWidth, Int.bmod_def]
+     have hc := BitVec.toInt_eq_toNat_cond v
+     have hv := v.isLt
+     split at hc <;> omega)
+
+/-- **a constant accepted for an unsigned N-bit immediate field is reproduced by zero extension** -/
+theorem imm_unsigned_sound (v : BitVec 64) :
+    (C01.uint8_p v.toInt = true → (v.truncate 8).zeroExtend 64 = v) ∧
+    (C01.uint16_p v.toInt = true → (v.truncate 16).zeroExtend 64 = v) ∧
+    (C01.uint32_p v.toInt = true → (v.truncate 32).zeroExtend 64 = v) := by
+  refine ⟨?_, ?_, ?_⟩ <;> intro h <;>
+    (simp only [C01.uint8_p, C01.uint16_p, C01.uint32_p, Bool.and_eq_true, decide_eq_true_eq] at h
+     apply BitVec.eq_of_toNat_eq
+     have := BitVec.toInt_eq_toNat_cond v
+     simp only [BitVec.truncate_eq_setWidth, BitVec.toNat_setWidth]
+     have hv := v.isLt
+     split at this <;> omega)
+
+/-- non-vacuity: 127 and -128 are accepted for imm8, 128 is not -/
+example : C01.int8_p 127 = true ∧ C01.int8_p (-128) = true ∧ C01.int8_p 128 = false ∧ C01.uint8_p 255 = true := by decide
+
+end MirVerif
